@@ -46,9 +46,9 @@ def gen_layout(rng):
         own = [n for n in names if n not in declared and rng.random() < 0.7] if lv < nlev - 1 else [n for n in names if n not in declared]
         redecl = [n for n in declared if rng.random() < 0.3] if lv > 0 else []
         for n in own + redecl:
-            kind = rng.choice(["req", "req", "def", "fac"])
+            kind = rng.choice(["req", "req", "def", "fac", "opt0", "optstr", "optnone"])
             fields.append({"name": n, "kind": kind, "kw_only": rng.random() < 0.25, "init": True})
-            if kind != "req" and rng.random() < 0.15:
+            if kind in ("def", "fac") and rng.random() < 0.15:
                 fields[-1]["init"] = False
         declared += own
         levels.append({"fields": fields, "initvar": rng.random() < 0.15, "classvar": rng.random() < 0.2})
@@ -68,12 +68,18 @@ def build(levels, idx, debug=False):
         def make_ns():
             ann, ns = {}, {}
             for f in lv["fields"]:
-                ann[f["name"]] = typing.List[int] if f["kind"] == "fac" else int
+                ann[f["name"]] = {"fac": typing.List[int], "opt0": typing.Optional[int], "optstr": typing.Optional[str], "optnone": typing.Optional[int]}.get(f["kind"], int)
                 kw = {}
                 if f["kind"] == "def":
                     kw["default"] = 7
                 elif f["kind"] == "fac":
                     kw["default_factory"] = list
+                elif f["kind"] == "opt0":
+                    kw["default"] = 0          # falsy, non-None default of a nullable field
+                elif f["kind"] == "optstr":
+                    kw["default"] = ""
+                elif f["kind"] == "optnone":
+                    kw["default"] = None
                 if f["kw_only"] or f["name"] in forced_kw:
                     kw["kw_only"] = True
                 if not f["init"]:
@@ -117,7 +123,9 @@ def stdlib_view(cls):
     out = []
     for f in dataclasses.fields(cls):
         has_def = f.default is not dataclasses.MISSING or f.default_factory is not dataclasses.MISSING
-        out.append({"name": f.name, "has_default": has_def, "factory": f.default_factory is not dataclasses.MISSING, "kw_only": bool(f.kw_only), "init": bool(f.init)})
+        nullable = f.default is None or typing.get_origin(f.type) is typing.Union
+        out.append({"name": f.name, "has_default": has_def, "factory": f.default_factory is not dataclasses.MISSING, "kw_only": bool(f.kw_only), "init": bool(f.init),
+                    "default": (None if not has_def or f.default is dataclasses.MISSING else f.default), "nullable": nullable, "is_str": f.type == typing.Optional[str]})
     return out
 
 
@@ -129,7 +137,7 @@ def expected(view, present):
         if f["init"] and f["name"] in present:
             res[f["name"]] = present[f["name"]]
         elif f["has_default"]:
-            res[f["name"]] = [] if f["factory"] else 7
+            res[f["name"]] = [] if f["factory"] else f["default"]
         elif f["init"]:
             return ("missing", f["name"])
     return ("ok", res)
@@ -162,7 +170,13 @@ def run_layouts(ctx, layouts):
         for subset in itertools.chain.from_iterable(itertools.combinations(init_names, r) for r in range(len(init_names) + 1)):
             present = {}
             for n in subset:
-                present[n] = [1, 2] if next(f for f in view if f["name"] == n)["factory"] else 100 + len(present)
+                fv = next(f for f in view if f["name"] == n)
+                if fv["nullable"] and ctx.rng.random() < 0.5:
+                    present[n] = None          # an explicit null always overrides the default
+                elif fv["is_str"]:
+                    present[n] = "s%d" % len(present)
+                else:
+                    present[n] = [1, 2] if fv["factory"] else 100 + len(present)
             stray = {n: 555 for n in other if ctx.rng.random() < 0.3}
             d = {**present, **stray}
             case = {"layout": levels, "keys": sorted(d)}
@@ -220,7 +234,7 @@ def run_layouts(ctx, layouts):
             call2 = None
             for m in re.finditer(r"return (?:cls\.__post_deserialize__\()?cls\((.*?)\)\)?\s*$", buf2.getvalue(), re.M):
                 call2 = m.group(1)
-            full = {f["name"]: ([1] if f["factory"] else 5) for f in view if f["init"]}
+            full = {f["name"]: ([1] if f["factory"] else ("z" if f["is_str"] else 5)) for f in view if f["init"]}
             o = dec.decode(dict(full))
             if any(getattr(o, k) != v for k, v in full.items()):
                 ctx.violation({"layout": levels, "entry": "codec"}, {"decoded": repr(o)}, "codec decode binds every value to its own field", "wrong binding through the codec", lambda f: False)
